@@ -352,3 +352,19 @@ def Pools.Truncated (p : Pools) : Prop := ∀ c ∈ p.result, c.result.elems = [
 
 end Glob
 end JPV
+
+/-! ### `Retrieve` (appended; nothing above depends on it) -/
+namespace JPV
+namespace Glob
+
+/-- outcome of `Retrieve(path, src, config...)` -/
+inductive RetrieveRet where
+  | parseErr (err : PanicVal)     -- `return nil, err`: the error `Parse` returned
+  | called (r : CallRet)          -- `return jsonPathFunc(src)`: whatever the call of the parsed function does
+  | nilFunc                       -- `Parse` returned (nil, nil): calling the nil func value panics
+  | panicked (p : PanicVal)       -- a panic that leaves `Parse` (none does: C19_no_escape)
+  | blocked                       -- the `Lock()` inside `Parse` never returned
+  deriving Inhabited
+
+end Glob
+end JPV
